@@ -86,6 +86,7 @@ let impl_codec (impl : string) : codec option =
   | "55" -> Some (with_real_chunks "55" raw_codec)
   | "129" -> Some (table_codec "129")
   | "200" -> Some (table_codec "200")
+  | "7100" -> Some { (table_codec "7100") with c_werr_ignored = false }  (* dag-cbor through tables: large blocks *)
   | _ -> None
 
 (* registry description: "G" (the global registry as the harness sets it up) or
@@ -120,6 +121,13 @@ let reg_fun (tbl : (string * string) list) : n -> codec option =
 let global_encs, global_decs = parse_reg "G"
 let g_encoders = reg_fun global_encs
 let g_decoders = reg_fun global_decs
+
+(* "bload" records (large blocks, byte strings under names — harness/lib/link_big.go): raw is the
+   concrete model run on the names, dag-cbor is taken from D tables *)
+let big_decs = List.map (fun (c, i) -> (c, if i = "71" then "7100" else i)) global_decs
+let big_decoders = reg_fun big_decs
+let cur_decs = ref global_decs
+let cur_decoders = ref g_decoders
 
 (* ------------------------------------------------------------------ parsing *)
 
@@ -508,7 +516,7 @@ let load_oracle ?(ok_reify_error = false) fails skip (f : lform) (trusted : bool
        let data = List.concat chunks in
        let verifies = f = FLoadRaw || f = FLoadPlusRaw || not trusted in
        let p = link_proto l in
-       let spec_dec = (match g_decoders p.lp_codec with Some c -> Some (c.c_dec data) | None -> None) in
+       let spec_dec = (match !cur_decoders p.lp_codec with Some c -> Some (c.c_dec data) | None -> None) in
        if tail = "open" || tail = "err" then begin
          (* I/O failure: an error, and neither a node nor bytes *)
          if st = "ok" then add_fail fails "io_swallowed";
@@ -544,8 +552,8 @@ let load_oracle ?(ok_reify_error = false) fails skip (f : lform) (trusted : bool
                | [] -> false
                | [] :: r -> List.exists (fun c -> c <> []) r || mid_empty r
                | _ :: r -> mid_empty r in
-             let refmt_codec = (match List.assoc_opt (hex_of_n p.lp_codec) global_decs with
-                 | Some ("71" | "51" | "129" | "200") -> true | _ -> false) in
+             let refmt_codec = (match List.assoc_opt (hex_of_n p.lp_codec) !cur_decs with
+                 | Some ("71" | "51" | "129" | "200" | "7100") -> true | _ -> false) in
              if f = FLoadRaw then add_fail fails "valid_block_refused"
              else if st <> "err.decode" || decoded <> None then
                add_fail fails
@@ -566,7 +574,7 @@ let do_load form trusted link_hex stream tail obs =
         | "err" -> RStream (chunks, TErr)
         | _ -> RStream (chunks, TEof)) in
     let f = form_of form in
-    let o = load_any hasher_ok hash g_decoders f trusted ro l in
+    let o = load_any hasher_ok hash !cur_decoders f trusted ro l in
     let model_obs = lout_text o ^ (if !missing then "/!table-entry-missing" else "") in
     let fails = ref [] in
     let skip = ref false in
@@ -734,12 +742,15 @@ let () =
         load_tables tables;
         let (m, v) = (try do_hist id kind (trusted = "1") reg ops obs with Failure e -> ("driver-error:" ^ e, "ok")) in
         out id m v
-      | [id; "load"; form; trusted; link; stream; tail; tables; obs] ->
+      | [id; ("load" | "bload" as kind); form; trusted; link; stream; tail; tables; obs] ->
         load_tables tables;
+        if kind = "bload" then (cur_decs := big_decs; cur_decoders := big_decoders)
+        else (cur_decs := global_decs; cur_decoders := g_decoders);
         let (m, v) = (try do_load form (trusted = "1") link stream tail obs with Failure e -> ("driver-error:" ^ e, "ok")) in
         out id m v
       | [id; "reify"; form; trusted; rmode; plink; pstream; ptail; children; tables; obs] ->
         load_tables tables;
+        cur_decs := global_decs; cur_decoders := g_decoders;
         let (m, v) = (try do_reify form (trusted = "1") rmode plink pstream ptail children obs with Failure e -> ("driver-error:" ^ e, "ok")) in
         out id m v
       | [id; "store"; proto; _holder; value; wopen; cap; sched; commiterr; tables; obs] ->
